@@ -133,7 +133,7 @@ func genGeom(t *rapid.T, layouts []geom.Layout, depth int, floats int) *model.G 
 func genBox(t *rapid.T, label string) Box {
 	l := rapid.SampledFrom(std).Draw(t, label+"layout")
 	n := l.Stride()
-	b := Box{Layout: int(l), Via: rapid.SampledFrom([]string{"set", "setcoords", "extend"}).Draw(t, label+"via")}
+	b := Box{Layout: int(l), Via: rapid.SampledFrom([]string{"set", "setcoords", "extend", "extend-xy-only"}).Draw(t, label+"via")}
 	for i := 0; i < n; i++ {
 		b.A = append(b.A, model.Of(float64(rapid.IntRange(-4, 4).Draw(t, label+"a"))))
 		b.B = append(b.B, model.Of(float64(rapid.IntRange(-4, 4).Draw(t, label+"b"))))
@@ -205,6 +205,9 @@ func buildBox(b Box) *geom.Bounds {
 		return geom.NewBounds(l).Set(append(lo, hi...)...)
 	case "setcoords":
 		return geom.NewBounds(l).SetCoords(geom.Coord(a), geom.Coord(bb))
+	case "extend-xy-only":
+		// a box of a higher layout that has only seen XY data: its Z/M intervals stay empty
+		return geom.NewBounds(l).Extend(geom.NewLineStringFlat(geom.XY, []float64{a[0], a[1], bb[0], bb[1]}))
 	default:
 		return geom.NewBounds(l).Extend(geom.NewLineStringFlat(l, append(append([]float64{}, a...), bb...)))
 	}
@@ -274,6 +277,12 @@ func prop(c Case) error {
 		}{"b1": {b1, c.B1}, "b2": {b2, c.B2}} {
 			a, bb := model.Floats(pair.box.A), model.Floats(pair.box.B)
 			for i := range a {
+				if pair.box.Via == "extend-xy-only" && i >= 2 {
+					if pair.b.Min(i) != math.Inf(1) || pair.b.Max(i) != math.Inf(-1) {
+						return fmt.Errorf("%s: dimension %d never saw data but holds [%v,%v]", name, i, pair.b.Min(i), pair.b.Max(i))
+					}
+					continue
+				}
 				if pair.b.Min(i) != math.Min(a[i], bb[i]) || pair.b.Max(i) != math.Max(a[i], bb[i]) {
 					return fmt.Errorf("%s built via %s: dim %d = [%v,%v], want [%v,%v]", name, pair.box.Via, i, pair.b.Min(i), pair.b.Max(i), math.Min(a[i], bb[i]), math.Max(a[i], bb[i]))
 				}
